@@ -174,6 +174,22 @@ func programs(thorough bool) []Spec {
 			ps = append(ps, Spec{Holders: []map[string]string{x, z, y}, Bound: 2, HoldUntil: map[int]int{0: 2}})
 		}
 	}
+	// many pairwise DISJOINT holders that must all be inside at the same time (a ring: holder i stays
+	// inside until holder i+1 has entered): any two names that the lock maps onto one underlying mutex
+	// turn this into a deadlock - by the pigeonhole principle for every table of fewer slots than names
+	for _, n := range []int{3, 140} {
+		hs := make([]map[string]string, n)
+		hold := map[int]int{}
+		for i := range hs {
+			mode := "W"
+			if i%5 == 4 {
+				mode = "R"
+			}
+			hs[i] = map[string]string{fmt.Sprintf("res_%d", i): mode, "shared": "R"}
+			hold[i] = (i + 1) % n
+		}
+		ps = append(ps, Spec{Holders: hs, Bound: 0, HoldUntil: hold})
+	}
 	return ps
 }
 
@@ -192,8 +208,15 @@ func run(c *fw.Ctx) {
 		sp := sp
 		o := &obs{}
 		seenOverlap := map[string]bool{}
+		opt := explore.Options{Bound: sp.Bound, Focus: focus, MapPerm: true, MapCost: 1, NoShard: true, MaxSteps: 5000 + 40*len(sp.Holders)*len(sp.Holders)}
+		if len(sp.Holders) > 3 {
+			// the large ring: whether two names share an underlying mutex does not depend on the schedule
+			// (if they do, no schedule gets all holders inside; lock-order questions are the small programs'),
+			// so only the default schedule is run - declared reduction
+			opt.OnlyKinds = []int{vsched.KindMap}
+		}
 		p := &explore.Program{Prop: "C15", Name: sp.name(), Spec: sp,
-			Opt:  explore.Options{Bound: sp.Bound, Focus: focus, MapPerm: true, MapCost: 1, NoShard: true, MaxSteps: 5000},
+			Opt:  opt,
 			Body: build(sp, o),
 			Judge: func(x *explore.Exec) *explore.Verdict {
 				if !o.done {
@@ -333,7 +356,7 @@ func replay(wj json.RawMessage) (*fw.Violation, error) {
 
 func init() {
 	fw.Register(&fw.Check{ID: "C15", Level: "model_checking",
-		Rule: "programs = every unordered pair (36) and triple of holders with lock maps over resources {a,b} (absent/R/W per resource, non-empty; quick: triples with >=5 lock entries, thorough: all 120); holder = Lock(map), enter, scheduling point, exit, Unlock; every schedule with <=3/2 (quick) or <=5/3 (thorough) preemptions, the iteration order of the lock map inside Lock being an additional explored choice; oracle: no two conflicting holders inside at once, every compatible pair overlaps in at least one explored execution, no deadlock; 17 programs over resources {a,b,c,d} in which a holder stays inside until a compatible holder has entered while a third, conflicting holder is blocked inside Lock (serialisation of unrelated holders shows as a program that never finishes); plus the lock's main client: 3 programs that combine the task runner's wait lists with named write/read locks (a task blocked on its wait list must not hold its resources), driven through the whole-application harness of C14 under every schedule with free context switches at blocking points; 3 (thorough 5) command-level programs: two pip:run commands issued from two goroutines whose --rlock/--wlock lists name the same resource (also on both lists: write access wins), exclusion judged inside the task bodies. states = distinct schedule traces",
+		Rule: "programs = every unordered pair (36) and triple of holders with lock maps over resources {a,b} (absent/R/W per resource, non-empty; quick: triples with >=5 lock entries, thorough: all 120); holder = Lock(map), enter, scheduling point, exit, Unlock; every schedule with <=3/2 (quick) or <=5/3 (thorough) preemptions, the iteration order of the lock map inside Lock being an additional explored choice; oracle: no two conflicting holders inside at once, every compatible pair overlaps in at least one explored execution, no deadlock; 17 programs over resources {a,b,c,d} in which a holder stays inside until a compatible holder has entered while a third, conflicting holder is blocked inside Lock (serialisation of unrelated holders shows as a program that never finishes); 2 ring programs with 3 and 140 pairwise disjoint holders (plus one shared read resource) that must all be inside at once (names mapped onto a common underlying mutex - any table of fewer slots than names - deadlock; the 140-holder ring runs its default schedule only: aliasing of names is schedule-independent); plus the lock's main client: 3 programs that combine the task runner's wait lists with named write/read locks (a task blocked on its wait list must not hold its resources), driven through the whole-application harness of C14 under every schedule with free context switches at blocking points; 3 (thorough 5) command-level programs: two pip:run commands issued from two goroutines whose --rlock/--wlock lists name the same resource (also on both lists: write access wins), exclusion judged inside the task bodies. states = distinct schedule traces",
 		Run: run, Replay: replay,
 		Assumptions: []string{"2 resources, 2-3 holders; Go's RWMutex writer preference is modelled by the shim (announced writer blocks later readers)"}})
 }
